@@ -7,6 +7,7 @@ import (
 	"io"
 	"io/fs"
 	"reflect"
+	"strings"
 	"syscall"
 	"testing"
 
@@ -40,6 +41,9 @@ type histCase struct {
 	FW       bool     `json:"fw,omitempty"`
 	Payloads [][]byte `json:"payloads,omitempty"`
 	Counts   []int    `json:"counts,omitempty"`
+	// PayloadSizes[i] > 0: payload i is that many incompressible bytes, generated
+	// (blocks well above 64 KiB also after compression).
+	PayloadSizes []int `json:"payload_sizes,omitempty"`
 	// Fault restricts a replay to one fault index (-1 = all).
 	Fault int `json:"fault"`
 	// Companion > 0 (C09): after step Companion-1 a second Encoder for the same type is
@@ -476,7 +480,17 @@ type faultWriter struct {
 	sticky bool
 	lens   []int
 	err    error // the error returned by failing writes (default errWriteSentinel)
+	// a second, later failing write with an error of its own (transient failures only)
+	failAt2 int
+	err2    error
+	fired2  bool
 }
+
+// problems is an error whose dynamic type cannot be compared with == (a list of
+// causes, as multi-error packages have them).
+type problems []string
+
+func (p problems) Error() string { return "problems: " + strings.Join(p, "; ") }
 
 func (f *faultWriter) failure() error {
 	if f.err != nil {
@@ -497,6 +511,10 @@ func (f *faultWriter) Write(p []byte) (int, error) {
 		n := len(p) * f.permil / 1000
 		f.buf.Write(p[:n])
 		return n, f.failure()
+	}
+	if f.err2 != nil && f.fired && !f.fired2 && k >= f.failAt2 {
+		f.fired2 = true
+		return 0, f.err2
 	}
 	return f.buf.Write(p)
 }
@@ -520,11 +538,17 @@ type callResult struct {
 // It returns the per-call results and, for each call, how many writes had been
 // issued when it returned.
 func runHistory(c histCase, w io.Writer, fw *faultWriter) (calls []callResult, writesAfter []int, perr error) {
+	return runHistoryOn(c, w, fw, true)
+}
+
+// runHistoryOn: with stopAtError false the caller carries on after a failed call
+// (a transient failure, a retrying application).
+func runHistoryOn(c histCase, w io.Writer, fw *faultWriter, stopAtError bool) (calls []callResult, writesAfter []int, perr error) {
 	perr = protect(func() error {
 		done := func(name string, err error) bool {
 			calls = append(calls, callResult{name, err})
 			writesAfter = append(writesAfter, fw.writes)
-			return err != nil
+			return err != nil && (stopAtError || name == "NewEncoderFor" || name == "WriteHeader")
 		}
 		if c.FW {
 			f, err := avro.NewFileWriter([]byte(`{"type":"record","name":"r","fields":[]}`), avro.Compression(c.Compression))
@@ -566,6 +590,23 @@ func runHistory(c histCase, w io.Writer, fw *faultWriter) (calls []callResult, w
 }
 
 func runC16(c histCase, col *stats.Collector) (bool, []string, error) {
+	if len(c.PayloadSizes) > 0 {
+		ps := append([][]byte(nil), c.Payloads...)
+		for i, n := range c.PayloadSizes {
+			if n > 0 && i < len(ps) {
+				b := make([]byte, n)
+				x := uint64(n)*0x9e3779b97f4a7c15 + uint64(i)
+				for j := range b {
+					x ^= x << 13
+					x ^= x >> 7
+					x ^= x << 17
+					b[j] = byte(x)
+				}
+				ps[i] = b
+			}
+		}
+		c.Payloads = ps
+	}
 	// every other history writes to a destination that is also an io.ByteWriter
 	byteWriter := (len(c.Ops)+len(c.Payloads)+len(c.J))%2 == 1
 	dest := func(fw *faultWriter) io.Writer {
@@ -668,6 +709,47 @@ func runC16(c histCase, col *stats.Collector) (bool, []string, error) {
 			}
 			return fail("accepted bytes diverge from the fault-free output at offset %d", i)
 		}
+		if !fw.sticky && k+1 < W {
+			// the failure was transient and the application carries on: a later write fails
+			// too, with an error of its own. The call that issued THAT write reports THAT
+			// error (and nothing panics on the way); what is accepted in between is not judged.
+			var e2 error = fmt.Errorf("second failure, write %d: %w", k, io.ErrClosedPipe)
+			if k%3 == 1 {
+				e2 = problems{"disk full", fmt.Sprintf("write %d", k)}
+			}
+			fw2 := &faultWriter{failAt: k, permil: permil, err: fw.err, failAt2: k + 1 + (k/3+len(c.Ops))%6, err2: e2}
+			if k%3 == 2 {
+				// both failures are values of one uncomparable type
+				fw2.err = problems{"first failure"}
+				e2 = problems{"disk full", fmt.Sprintf("write %d", k)}
+				fw2.err2 = e2
+			}
+			calls2, _, perr := runHistoryOn(c, dest(fw2), fw2, false)
+			if perr != nil {
+				return fail("carrying on after a transient failure (second failure %q): %v", e2, perr)
+			}
+			if fw2.fired2 {
+				found := false
+				for _, cr := range calls2 {
+					if cr.err == nil {
+						continue
+					}
+					var pr problems
+					if errors.Is(cr.err, io.ErrClosedPipe) && errors.Is(e2, io.ErrClosedPipe) {
+						found = true
+					}
+					if errors.As(cr.err, &pr) && reflect.DeepEqual(error(pr), e2) {
+						found = true
+					}
+				}
+				if !found {
+					return fail("after a first, transient failure a later write failed with %q, but no call returned an error wrapping it (calls: %v)", e2, summariseCalls(calls2))
+				}
+				if col != nil {
+					col.Label("second_failure_after_transient")
+				}
+			}
+		}
 		if col != nil {
 			partial := permil > 0 && permil < 1000
 			col.RecordKey(hk+uint64(k)*0x9e3779b97f4a7c15, k > 0 && partial && multi)
@@ -681,6 +763,16 @@ func runC16(c histCase, col *stats.Collector) (bool, []string, error) {
 		}
 	}
 	return multi && W > 1, labels, nil
+}
+
+func summariseCalls(calls []callResult) string {
+	var sb strings.Builder
+	for _, c := range calls {
+		if c.err != nil {
+			fmt.Fprintf(&sb, "%s: %v; ", c.name, c.err)
+		}
+	}
+	return sb.String()
 }
 
 func callKind(name string) string {
@@ -709,6 +801,10 @@ func drawC16Case(t *rapid.T) histCase {
 		for i := 0; i < n; i++ {
 			c.Payloads = append(c.Payloads, rapid.SliceOfN(rapid.Byte(), 0, 80).Draw(t, "payload"))
 			c.Counts = append(c.Counts, gen.UniformRange(t, "count", 0, 200))
+		}
+		if n > 0 && gen.Uniform(t, "bigPayload", 6) == 0 {
+			c.PayloadSizes = make([]int, n)
+			c.PayloadSizes[gen.Uniform(t, "bigAt", n)] = []int{65536, 70001, 100000, 300000}[gen.Uniform(t, "bigSize", 4)]
 		}
 	} else {
 		c = drawHistCase(t, true)
